@@ -95,6 +95,30 @@ def _compare(mon, a, b, at, r0, fit, sigs, hist, metrics, tag):
         mon.fail("pressure-availability", "the pressure step is well posed in both realisations or in neither", tag=tag)
 
 
+def _geometry_extras(at, r, sseed, mode):
+    """the same geometric special case applied to every relabelled realisation of one tissue (chosen by physical identity):
+    'axis': the first segment of a curved interface exactly parallel to a coordinate axis;
+    'kink': a four-vertex interface whose first interior vertex lies on the chord and whose second does not (neither a line
+            nor an arc: whether it counts as straight must not depend on the direction it is stored in)"""
+    from fv.gen import scen
+    from fv.oracle import fb
+    rg = np.random.default_rng([int(sseed), 77])
+    if mode == "axis":
+        scen.axis_segment(rg, r.at, r)
+        return True
+    cand = sorted((k for k in fb.internal_keys(at, r.ks) if r.ks[k] == 2 and abs(at.PHI[k]) < 1e-12), key=sorted)
+    if not cand:
+        return False
+    k = cand[int(rg.integers(len(cand)))]
+    a, b = at.ends(k)
+    ch = r.imap[k]
+    ids = ch if ch[0] == r.jmap[a] else ch[::-1]          # from a = min(key) to b, whatever the storage direction
+    va, vb, v2 = r.vertices[ids[0]], r.vertices[ids[-1]], r.vertices[ids[2]]
+    dx, dy = vb.x - va.x, vb.y - va.y
+    v2.x, v2.y = float(v2.x - 0.05 * dy), float(v2.y + 0.05 * dx)
+    return True
+
+
 def run_case(case):
     from fv import env, contracts, static
     from fv.gen import scen, realise, tissue
@@ -127,6 +151,13 @@ def run_case(case):
         with env.Capture() as cap:
             try:
                 r0 = realise.realise(at, k=ks, rng=np.random.default_rng(sseed), spacing=spacing)
+                extra_mode = None
+                if case["fam"] != "orient-exh" and case["seed"][2] % 7 in (2, 5):
+                    extra_mode = "axis" if case["seed"][2] % 7 == 2 else "kink"
+                    if not _geometry_extras(at, r0, sseed, extra_mode):
+                        extra_mode = None
+                    else:
+                        hist["geometry:" + extra_mode] = hist.get("geometry:" + extra_mode, 0) + 1
                 a = static.solve(r0, fit=fit, method=method)
             except Exception as exc:
                 hist["reference-raised"] = hist.get("reference-raised", 0) + 1
@@ -146,6 +177,8 @@ def run_case(case):
                     r1 = realise.realise(at, k=ks, rng=np.random.default_rng(sseed), spacing=spacing, relabel=var["relabel"],
                                          shifts=True, flips=var["flips"], edge_dirs=True, cell_order=True,
                                          id_base=int(rng.integers(0, 1000)))
+                    if extra_mode:
+                        _geometry_extras(at, r1, sseed, extra_mode)
                     b = static.solve(r1, fit=fit, method=method)
                 except Exception as exc:
                     import traceback
